@@ -24,7 +24,7 @@ MODES = ["O0", "O1"]      # junk handling must not depend on assert statements e
 TIERS = {"quick": {"runs": 1600, "wall": 55}, "thorough": {"runs": 25000, "wall": 1500}}
 RULE = ("plan = base directory (1..7 well-formed PELs) + 1..4 junk items (torn/lost/flip/garbage/foreign copies "
         "of the plan's own PELs, biased into headers, length fields and the callout area) + 0..2 subdirectories "
-        "+ in 6% of the plans a crowd of 25..40 files cut inside the headers + option set; every directory mode (-l -a -n --plid --src --src-exclude -j, with -x/-r variants) runs "
+        "+ in 6% of the plans a crowd of 25..40 (sometimes 300 or 3500) files cut inside the headers + option set; every directory mode (-l -a -n --plid --src --src-exclude -j, with -x/-r variants) runs "
         "on B, on B+J and on each junk item alone, each with a seeded readdir order.  distinct_nontrivial "
         "counts distinct abstract traces (mode, junk kinds present, junk classification per mode, number of "
         "base PELs reported) among mode executions with at least one junk item present.")
@@ -85,7 +85,7 @@ def gen_plan(rng, tier, run):
             "leftover": rng.randrange(1, 1 << 16) if rng.random() < 0.3 else 0,
             # a crowd of undecodable files (a typo'd -p, a directory shared with other data): cut inside the headers,
             # so junk by construction; sorts before or after the healthy PELs
-            "crowd": {"n": rng.randint(25, 40), "off": rng.choice([1, 8, 20, 47]), "prefix": rng.choice(["00", "00", "zz"])}
+            "crowd": {"n": rng.choice([rng.randint(25, 40)] * 5 + [300, 3500]), "off": rng.choice([1, 8, 20, 47]), "prefix": rng.choice(["00", "00", "zz"])}
             if rng.random() < 0.06 else None,
             "class_search": rng.randrange(1, 1 << 16) if rng.random() < 0.3 else 0,
             "stdout_encoding": rng.choice(["utf-8", "utf-8", "utf-8", "ascii", "latin-1"]),
@@ -193,6 +193,14 @@ def execute(plan):
                 evals += 1
                 events += len(r.events)
                 q = reported_nothing(mode, r, outputs(w, "J%d" % i), hexmode) and r.exit == 0 and not r.exc
+                if hexmode and not q:
+                    # --hex only changes the presentation: a file the mode cannot decode without -x is junk for it
+                    # with -x too (otherwise a hex path that dumps without decoding would vouch for itself)
+                    r2 = w.run(argv_of(plan, mode, "J%d" % i, False), order=order, stdout_encoding=plan.get("stdout_encoding", "utf-8"))
+                    evals += 1
+                    if reported_nothing(mode, r2, {}, False) and r2.exit == 0 and not r2.exc:
+                        q = True
+                        bump("junk_qualified_by_non_hex_variant")
                 if plan["ext"] and not common.ext_matches(j["name"], plan["ext"]):
                     q = True
                 if common.headers_damaged_by_construction(pelgen.build(j["recipe"]), j["junk"]):
@@ -229,7 +237,7 @@ def execute(plan):
                     cr = plan["crowd"]
                     cdata = pelgen.build(plan["files"][0]["recipe"])[:cr["off"]]
                     for ci in range(cr["n"]):
-                        w.put("%s/%scrowd%02d" % (d, cr["prefix"], ci), cdata)
+                        w.put("%s/%scrowd%04d" % (d, cr["prefix"], ci), cdata)
                     if tag == "ALL":
                         bump("junk_crowd")
                 if tag != "B":
